@@ -107,7 +107,8 @@ def unit(unit):
     seen = {}
     results = []
     evals = 0
-    for b in candidates(pre, opcode, OPC, unit.get("thorough", False)):
+    cands = candidates(pre, opcode, OPC, unit.get("thorough", False))
+    for b in cands:
         info = arch.get_instruction_info(b, addr)
         if info is None:
             continue
@@ -159,7 +160,7 @@ def unit(unit):
         classes.setdefault((r["fail"][0], shape), r)
     obs = [dict(name=f"roundtrip:{k[0]}", status="failed", backend="enumeration", model=None,
                 detail=f"{v['bytes']}: {v['text']!r} (source {v['src']!r}) -> {v['fail'][1]}") for k, v in sorted(classes.items())]
-    return dict(unit=unit, status="ok", error=None, kinds={"accepted-encodings": evals, "failed": len(failed)},
+    return dict(unit=unit, status="ok", error=None, kinds={"candidates": len(cands), "accepted-encodings": evals, "failed": len(failed)},
                 obligations=evals, proved=evals - len(failed), failed=obs[:30], nfailed=len(failed), unknown=0,
                 undecided_notes=[], stats=dict(paths=evals, queries=0, solver_s=0.0), by_backend={"enumeration": evals - len(failed)},
                 wall_s=round(time.time() - t0, 2), allow_empty=(evals == 0),
